@@ -3,6 +3,7 @@ package main
 import (
 	"fmt"
 	"go/constant"
+	"strings"
 	"go/token"
 	"go/types"
 
@@ -293,6 +294,10 @@ func boundUse(v ssa.Value, depth int) string {
 			if ok && bt.Kind() == types.Uint8 && depth == 0 {
 				continue
 			}
+			if ok && depth == 0 && btypeBits(x.Type()) > btypeBits(v.Type()) {
+				// int(a + b): the widening shows that the wide result was meant
+				return "a widened value"
+			}
 			if u := boundUse(x, depth+1); u != "" {
 				return u
 			}
@@ -366,4 +371,21 @@ func condFieldBoundedOrHuge(w *World, br *boundsRun, fn, field string, max int64
 		}
 		return true, ""
 	}
+}
+
+// runNarrowBoundIn runs narrowbound (and its control) on the library functions
+// of the packages whose import path ends in one of the suffixes.
+func runNarrowBoundIn(w *World, r *Report, br *boundsRun, suffixes ...string) {
+	var fns []*ssa.Function
+	for _, f := range w.LibFuncs() {
+		p := fnPkgPath(f)
+		for _, sfx := range suffixes {
+			if strings.HasSuffix(p, sfx) {
+				fns = append(fns, f)
+				break
+			}
+		}
+	}
+	RunNarrowBound(w, r, fns, br)
+	RunControl(r, "narrowbound", "ctlWrapBound|", func(cw *World, rr *Report, cf []*ssa.Function) { RunNarrowBound(cw, rr, cf, newBoundsRun(cw)) })
 }
